@@ -57,7 +57,7 @@ CHECKS = {
          'Single damages only; ground truth resolves objects index-first like the library; depth-bounded.', '5 C12'),
  'C18': ('seqx', 'model_checking',
          'explicit-state BFS with a /proc/self/fd census monitor on every transition (+ repeat-the-operation differential, + after close); open-file monitor over a request lattice; tracemalloc budget over a size lattice',
-         'Descriptor half: exhaustive over bounded histories. Open-file half: complete product of container shapes and request styles under an interposed open/close monitor. Memory half: enumeration (exploration level) of streaming paths x sizes with a peak budget and a no-growth criterion.',
+         'Descriptor half: exhaustive over bounded histories. Open-file half: complete product of container shapes and request styles under an interposed open/close monitor. Fault half: for six operations every single I/O fault is injected and after close() no descriptor may remain. Memory half: enumeration (exploration level) of streaming paths x sizes with a peak budget and a no-growth criterion.',
          'GC disabled during the census; memory half covers sizes 1-16 (48) MiB only.', '5 C18'),
  'C01': ('grids', 'model_checking',
          'complete enumeration of a finite lattice: byte strings x write paths x read modes x configurations, on the real library',
